@@ -76,6 +76,12 @@ def cancels (f : FlowT) : List Nat → Nat
   | u :: v :: r => (if 0 < f.get v u then 1 else 0) + cancels f (v :: r)
   | _ => 0
 
+/-- number of arcs of the path on which the reverse flow is cancelled only partly and the rest of
+`path_flow` is pushed forward (`0 < flow[v][u] < path_flow`; coverage counter only) -/
+def partials (f : FlowT) (d : Int) : List Nat → Nat
+  | u :: v :: r => (if 0 < f.get v u ∧ f.get v u < d then 1 else 0) + partials f d (v :: r)
+  | _ => 0
+
 /-- capacity of the cut (S, V \ S) on pooled capacities -/
 def cutCap (S : List Nat) : Int :=
   lsum (N.V.filter fun u => S.contains u) fun u =>
@@ -87,21 +93,22 @@ structure Out where
   vis     : List Nat     -- visited set of the last `bfs()` (the one that returned None)
   augs    : Nat          -- `iterations`
   cancels : Nat
+  pcancel : Nat          -- arcs with a partial cancellation (`0 < flow[v][u] < path_flow`)
   done    : Bool         -- false: fuel exhausted / `inf` path flow (never, by `ek_terminates`)
 
 def bfsFuel : Nat := 2 * N.V.length + 2
 
-def loop : Nat → FlowT → Int → Nat → Nat → Out
-  | 0, f, tot, k, c => ⟨f, tot, [], k, c, false⟩
+def loop : Nat → FlowT → Int → Nat → Nat × Nat → Out
+  | 0, f, tot, k, c => ⟨f, tot, [], k, c.1, c.2, false⟩
   | n + 1, f, tot, k, c =>
     match N.bfs f N.bfsFuel [N.s] [(N.s, [N.s])] with
     | (some p, _) =>
       match N.pathFlow f p none with
-      | some d => loop n (aug f d p) (tot + d) (k + 1) (c + cancels f p)
-      | none => ⟨f, tot, [], k, c, false⟩
-    | (none, vis) => ⟨f, tot, vis, k, c, true⟩
+      | some d => loop n (aug f d p) (tot + d) (k + 1) (c.1 + cancels f p, c.2 + partials f d p)
+      | none => ⟨f, tot, [], k, c.1, c.2, false⟩
+    | (none, vis) => ⟨f, tot, vis, k, c.1, c.2, true⟩
 
-def maxFlow : Out := N.loop ((N.cutCap [N.s]).toNat + 1) [] 0 0 0
+def maxFlow : Out := N.loop ((N.cutCap [N.s]).toNat + 1) [] 0 0 (0, 0)
 
 /-! ### Verified checker (T-spec side) -/
 
